@@ -308,6 +308,14 @@ def arithmetic_cases():
     for fn in ('round', 'trunc', 'floor', 'ceil', 'cycle'):
         cases.append(scripth.Case([R.Print(R.CallE(fn, [N(sid=1, kind='any')]))], specs=(), tag='builtin-%s' % fn, doms={1: ('real', -1000, 1000)}))
         cases.append(scripth.Case([R.Print(R.CallE(fn, [R.Bin('/', N(sid=1, kind='any'), N(value=2))]))], specs=(), tag='builtin-%s-halves' % fn, doms={1: ('int', -9, 9)}))
+    # transcendental built-ins: uninterpreted functions (vlib/ufmath.py) -- right function, right argument, right unit side
+    for fn in ('sqrt', 'sin', 'cos', 'tan', 'atan'):
+        cases.append(scripth.Case([R.Print(R.CallE(fn, [N(sid=1, kind='any')]))], specs=(), tag='builtin-%s' % fn, doms={1: ('real', -1000, 1000)}))
+        cases.append(scripth.Case([R.Print(R.Bin('*', R.CallE(fn, [R.Bin('+', N(sid=1, kind='any'), N(sid=2, kind='any'))]), N(value=2)))], specs=(),
+                                  tag='builtin-%s-in-expression' % fn, doms={1: ('real', 0, 500), 2: ('real', 0, 500)}))
+    for fn in ('asin', 'acos'):
+        cases.append(scripth.Case([R.Print(R.CallE(fn, [N(sid=1, kind='any')]))], specs=(), tag='builtin-%s' % fn, doms={1: ('real', -1, 1)}))
+    cases.append(scripth.Case([R.Print(R.CallE('sin', [R.CallE('asin', [N(sid=1, kind='any')])]))], specs=(), tag='builtin-sin-of-asin', doms={1: ('real', -1, 1)}))
     return cases
 
 
